@@ -12,7 +12,7 @@ Proof. unfold updn. intros H. destruct (Nat.eqb_spec i k); congruence. Qed.
 
 (* the client discipline: the next operation let through is Unlock iff the participant is inside *)
 Lemma next_pc_spec {PC} (entry : sop -> PC) scr ins p r :
-  next_pc entry scr ins = (Some p, r) -> exists o, p = entry o /\ (o = SUnlock <-> ins = true).
+  next_pc entry scr ins = (Some p, r) -> exists o, p = entry o /\ (o = AUnlock <-> ins = true).
 Proof.
   revert p r. induction scr as [|o scr IH]; intros p r H; cbn in H; [discriminate|].
   destruct o, ins; try (apply IH in H; exact H); injection H as <- _; eexists; split; eauto; split; congruence.
